@@ -277,6 +277,10 @@ func c17AST(c *fw.Ctx, i int) {
 
 func c17ACT(c *fw.Ctx, i int) {
 	r := c.R
+	// one receiver decoding the whole stream, as an application does per packet; values it decoded earlier were copied out by assignment
+	stream := &rtp.AbsCaptureTimeExtension{}
+	var earlier rtp.AbsCaptureTimeExtension
+	var earlierWire []byte
 	for k := 0; k < 1024; k++ {
 		ts := r.PickU64(0, 1, 1<<63, ^uint64(0), 0x83AA7E8000000000, r.U64(), r.U64(), r.U64())
 		hasOff := r.Bool()
@@ -351,6 +355,33 @@ func c17ACT(c *fw.Ctx, i int) {
 					c.Fail(sig, fmt.Sprintf("the 8-byte form carries no offset but the receiver reports %d", *d.EstimatedCaptureClockOffset), w2)
 					return
 				}
+			}
+		}
+		// a value decoded earlier (copied out of the reused receiver) and the value a receiver was initialised from still are what they were decoded as
+		if err := stream.Unmarshal(want); err != nil {
+			c.Fail("C17/abscapturetime/unmarshal-timestamp", "stream receiver refused a valid encoding: "+err.Error(), w)
+			return
+		}
+		if earlierWire != nil {
+			if now, err := earlier.Marshal(); err != nil || !bytes.Equal(now, earlierWire) {
+				c.Fail("C17/abscapturetime/earlier-decoded-value-changed-by-a-later-Unmarshal", fmt.Sprintf("a value decoded from %s and copied out of the receiver encodes as %s after the receiver decoded %s",
+					fw.Hex(earlierWire), fw.Hex(now), fw.Hex(want)), w)
+				return
+			}
+			c.Count("earlier_decoded_values_rechecked", 1)
+		}
+		earlier, earlierWire = *stream, want
+		{
+			init := e // receiver initialised by assignment from a live value
+			other := binary.BigEndian.AppendUint64(binary.BigEndian.AppendUint64(nil, ^ts), uint64(off)^0x5555)
+			if err := init.Unmarshal(other); err != nil {
+				c.Fail("C17/abscapturetime/unmarshal-timestamp", "receiver refused a valid 16-byte encoding: "+err.Error(), w)
+				return
+			}
+			if now, err := e.Marshal(); err != nil || !bytes.Equal(now, want) {
+				c.Fail("C17/abscapturetime/earlier-decoded-value-changed-by-a-later-Unmarshal", fmt.Sprintf("the value a receiver was initialised from by assignment encodes as %s after that receiver decoded %s (it encoded as %s before)",
+					fw.Hex(now), fw.Hex(other), fw.Hex(want)), w)
+				return
 			}
 		}
 		// round trip
